@@ -727,3 +727,14 @@ impl Client {
         }
     }
 }
+
+#[cfg(feature = "verif")]
+impl Client {
+    /// The connection's HalfConnection while active (read-only, harness diagnostics).
+    pub fn verif_half_connection(&self) -> Option<&half_connection::HalfConnection> {
+        match self.state {
+            State::Active(ref state) => Some(&state.half_connection),
+            _ => None,
+        }
+    }
+}
